@@ -257,6 +257,51 @@ def check_inverse(fx, R, f, fwd):
             R.holds('F4', 'ECEFConverter::toWGS84:tolerance-below-resolution', 'tolerance %g is above the spacing of doubles at pi/2 (%.3g)' % (tol, ulp), loc, 'E-INT')
         R.check(0 < tol <= bound, 'F4', 'ECEFConverter::toWGS84:tolerance', 'the iteration stops at |delta| <= %g; with contraction factor about e2 = 0.0069 the latitude error can then reach %.3g rad, above the 1e-9 rad of the statement '
                 '(tolerance must not exceed %.3g)' % (tol, tol * q / (1 - q), bound), 'tolerance %g <= %.3g' % (tol, bound), loc, 'E-INT')
+    # ---- F7: what the epilogue reads is fresh -----------------------------------------------------
+    # The loop leaves with |latitude - previous iterate| <= tol, not with equality.  One iteration is read from a symbolic previous iterate
+    # `prev`; the epilogue is then read on that state WITHOUT re-synchronising anything, so a value it takes from a local the body computed
+    # from `prev` (instead of recomputing it from the returned latitude) shows as a dependence on `prev`.  First-order effect on the altitude:
+    # |d altitude / d prev| * tol / (1 - q) at the true latitude, evaluated on the witness points of the quantifier.
+    if tol is not None and simple:
+        prev = sp.Symbol('prevLatitude', real=True)
+        st7 = pres[0].copy()
+        st7.locals[ids['latitude']] = prev
+        try:
+            lb7 = run_block([L['b']], [st7])
+            post7 = run_block(post, [x_.copy() for x_ in lb7])
+        except sym.Unsupported as u:
+            R.undecided('F7', 'ECEFConverter::toWGS84:altitude-freshness', 'symbolic reader: %s' % u)
+            post7 = []
+        for st in post7:
+            altv = st.locals.get(ids.get('altitude'))
+            if not isinstance(altv, sp.Basic):
+                R.undecided('F7', 'ECEFConverter::toWGS84:altitude-freshness', 'altitude not interpretable')
+                continue
+            A = substitute(altv)               # evaluated numerically below: no need to rewrite the norm
+            dA = sp.diff(A, prev)
+            worst = None
+            try:
+                for la in [sp.pi * sp.nsimplify(d) / 180 for d in WIT['lat_deg']]:
+                    for hh in WIT['heights']:
+                        w = {lat: la, lon: sp.Rational(3, 10), h: hh, a: 6378137, e2: sp.Rational(669438, 10 ** 8), prev: la}
+                        dv = abs(float(sp.N(dA.subs(w), 30)))
+                        err = dv * tol / (1 - 0.0069)
+                        if worst is None or err > worst[0]:
+                            worst = (err, la, hh, dv)
+            except (TypeError, ValueError):
+                R.undecided('F7', 'ECEFConverter::toWGS84:altitude-freshness', 'd altitude / d previous-iterate not evaluable on the witness points')
+                continue
+            stale = sorted(n_ for n_, i_ in ids.items() if n_ not in ('latitude', 'altitude') and isinstance(st.locals.get(i_), sp.Basic) and st.locals[i_].has(prev)
+                           and any(y.get('k') == 'Ref' and y.get('id') == i_ for p_ in post for y in walk(p_)))
+            if worst[0] > 2e-3:
+                R.violated('F7', 'ECEFConverter::toWGS84:altitude-freshness', 'the altitude is computed from %s, which the loop body evaluated at the PREVIOUS latitude iterate and did not refresh after the last update: '
+                           'the loop exits with |latitude - previous| <= %g, not 0, and d altitude / d previous = %.3g m/rad at latitude %s deg, height %s m, so the height is off by up to %.2g m (statement: 1 mm); '
+                           'the returned latitude and longitude are unaffected' % (stale or 'values of the previous iterate', tol, worst[3], sp.N(worst[1] * 180 / sp.pi, 4), worst[2], worst[0]), loc, 'E-INT')
+            elif worst[0] < 5e-4:
+                R.holds('F7', 'ECEFConverter::toWGS84:altitude-freshness', 'first-order effect of the last step on the altitude is at most %.2g m on the witness points (the altitude is recomputed from the returned latitude)' % worst[0],
+                        loc, 'E-INT')
+            else:
+                R.undecided('F7', 'ECEFConverter::toWGS84:altitude-freshness', 'first-order effect of the last step on the altitude is %.2g m at latitude %s deg: too close to 1 mm to call' % (worst[0], sp.N(worst[1] * 180 / sp.pi, 4)))
     # ---- altitude -------------------------------------------------------------------------------
     st1 = lb[0].copy()
     st1.locals[ids['latitude']] = lat
